@@ -31,7 +31,7 @@ RULE = ("modules of pygen projects (<= 140 lines); cursor = every offset inside 
 ASSUMPTIONS = ["completeness is demanded only for names bound on earlier lines (what every reading of later_locals "
                "agrees on) and only outside lambda / comprehension / definition-header positions",
                "dotted completions are checked for clause 1 and 2 only"]
-BUDGET = {"quick": (80, 300), "thorough": (8000, 900)}
+BUDGET = {"quick": (80, 300), "thorough": (8000, 480)}
 EXHAUSTIVE = {}
 CASE_TIMEOUT = 900
 REQUIRE = {"assist_calls": 20000, "completeness_checked": 500, "definitions_checked": 300, "truncated_calls": 5000}
